@@ -2,6 +2,7 @@
 package main
 
 import (
+	"runtime/pprof"
 	"encoding/hex"
 	"encoding/json"
 	"flag"
@@ -65,6 +66,7 @@ func cmdJob(args []string) int {
 	trace := fs.Bool("trace", false, "")
 	solver := fs.String("solver", "z3-new", "")
 	eager := fs.Bool("eager", false, "")
+	prof := fs.String("cpuprofile", "", "")
 	fs.Parse(args)
 	env, err := newEnv(*repo, *verif)
 	if err != nil {
@@ -76,6 +78,11 @@ func cmdJob(args []string) int {
 	if err != nil {
 		fmt.Println("LOAD ERROR:", err)
 		return 2
+	}
+	if *prof != "" {
+		f, _ := os.Create(*prof)
+		pprof.StartCPUProfile(f)
+		defer pprof.StopCPUProfile()
 	}
 	res := w.RunJob(exec.JobSpec{Pkg: pkgPath(*pkg), Harness: *harness, Params: parseParams(*params)}, exec.JobOpts{Solver: *solver, TimeoutMS: 60000, Trace: *trace, Eager: *eager})
 	printJob(res)
